@@ -129,8 +129,12 @@ ezc3d::DataNS::Frame &ezc3d::DataNS::Data::frame_nonConst(size_t idx)
 
 void ezc3d::DataNS::Data::frame(const ezc3d::DataNS::Frame &frame, size_t idx)
 {
-    if (idx == SIZE_MAX)
-        _frames.push_back(frame);
+    if (idx == SIZE_MAX){
+        // Deep copy the frame so the stored frame does not share its points and analogs with the sent one
+        ezc3d::DataNS::Frame newFrame;
+        newFrame.add(frame);
+        _frames.push_back(newFrame);
+    }
     else {
         if (idx >= _frames.size())
             _frames.resize(idx+1);
